@@ -10,7 +10,7 @@ Open Scope Z_scope.
 Theorem gen_tick_level_is_model tick buy p : tick_level_gen p buy tick = POk (tick_level tick buy p).
 Proof.
   unfold tick_level_gen, tick_lower_gen, tick_upper_gen, tick_level, qdiv.
-  destruct buy; f_equal; [apply Qfloor_comp|apply Qceiling_comp]; apply Qred_correct.
+  destruct buy; cbn [negb]; f_equal; first [apply Qfloor_comp|apply Qceiling_comp]; apply Qred_correct.
 Qed.
 
 Theorem gen_to_price_is_model tick k : exists q, to_price_gen k tick = POk q /\ Qeq q (qmul (inject_Z k) tick).
